@@ -299,6 +299,11 @@ def write_evidence(prop_id, tier, seed, mod, tot, digests, known_seen, viol_new,
     }
     with open(path, "w") as f:
         json.dump(ev, f, indent=1)
+    if tier == "thorough":
+        # the per-run file above is overwritten by the next (quick) run: keep the record of the deepest exploration beside it
+        os.makedirs(os.path.join(ROOT, "evidence", "thorough"), exist_ok=True)
+        with open(os.path.join(ROOT, "evidence", "thorough", "%s.json" % prop_id), "w") as f:
+            json.dump(ev, f, indent=1)
 
 
 def replay(prop_id, path, out=sys.stdout):
